@@ -123,6 +123,14 @@ def ttlSecNs (eNs j : Nat) : Nat := ((10500 - j) * eNs / 10000 + 999999999) / 10
 /-- the rounding with fix `fixes/C06-ttl-at-least-one-second.patch` (`ttlSeconds`): never below one second. -/
 def ttlSecondsFixed (eNs j : Nat) : Nat := if ttlSecNs eNs j > 1 then ttlSecNs eNs j else 1
 
+/-- `mathx.NewUnstable(deviation)`: the deviation is clamped to [0, 1]. -/
+def clampDev (d : Rat) : Rat := if d < 0 then 0 else if d > 1 then 1 else d
+
+/-- `Unstable.AroundDuration(base)` for a deviation of `p/qd` (after the clamp: `p ≤ qd`), a base of `base` ns and
+the draw `j/1000`: `time.Duration((1 + dev − 2·dev·r) · float64(base))`, truncated to whole nanoseconds — in exact
+arithmetic `⌊((qd + p)·1000 − 2·p·j) · base / (qd·1000)⌋`.  `cacheNode` uses `p/qd = 1/20` (`aroundNs_cache`). -/
+def aroundNs (p qd base j : Nat) : Nat := ((qd + p) * 1000 - 2 * p * j) * base / (qd * 1000)
+
 /-- `int(math.Ceil(expire.Seconds()))` for an explicit expiry in ms. -/
 def ceilSec (ms : Nat) : Nat := (ms + 999) / 1000
 
